@@ -55,12 +55,13 @@ def readback_jobs(tier):
     else:
         shape([4, 4], 0)
         for v in (1, 2, 3, 4):
-            shape([5, 5], v)
-        shape([4, 0, 4], 3)
-        shape([4, 4, 4], 3)
-        shape([4, 4, 4], 4, every=2)
-        shape([6, 5, 6], 3, every=7)
-        shape([7, 6], 4, every=3)
+            shape([4, 4], v)
+        shape([5, 5], 3, every=3)
+        shape([4, 0, 4], 3, every=2)
+        shape([3, 3, 3], 3)
+        shape([3, 3, 3], 4, every=4)
+        shape([4, 4, 4], 3, every=6)
+        shape([7, 6], 4, every=12)
     return out
 
 
@@ -128,10 +129,10 @@ def diags_jobs(tier):
 def parser_jobs(tier):
     out = []
     for p in layouts(tier, parser=True) + (finding_layouts() if FINDINGS else []):
-        for lab in ([0, 2] if tier == "quick" else [0, 1, 3]):
+        for lab in ([0, 2] if tier == "quick" else [0, 3]):
             if p["findings"] and lab:
                 continue
-            one = (tier == "quick" and (lab or p["cmt"])) or p["findings"]
+            one = lab or p["cmt"] or p["findings"]
             for (offl, offc) in ([(0, 0)] if one else [(0, 0), (2, 3)]):
                 q = dict(p, lab=lab, offl=offl, offc=offc)
                 out.append({"name": pname("rule", q), "func": "VerifHarness_ParseRule", "params": q, "unwind": 400, "reach": ["end"], "max_failures": 4, "timeout_s": JOB_TIMEOUT_S})
@@ -146,7 +147,7 @@ PROP = {
         {"pkg": "./internal/parser", "harness": ["harness/C06/gen_parser.go", "harness/C06/parser.go"], "intmode": True, "jobs": parser_jobs},
     ],
     "bounds": {
-        "L1 read-back": "quick: 2 lines of <= 4 bytes with values of 0..3 bytes (every Line/Column/minColumn for <= 2 bytes, every 3rd for 3), 3 lines 3/0/3 and 3/3/3 (subset); thorough: 2x5 bytes with values 0..4, 3x4 with values 3..4, samples of 6/5/6 and 7/6",
+        "L1 read-back": "quick: 2 lines of <= 4 bytes with values of 0..3 bytes (every Line/Column/minColumn combination for values <= 2 bytes, every 3rd for 3 bytes), 3 lines of 3/0/3 and 3/3/3 bytes (every 2nd / 5th combination); thorough: 2x4 bytes with values 0..4 (all combinations), 3x3 with values 3 (all) and 4 (every 4th), 4/0/4, 4/4/4 and 5/5 with value 3 (every 2nd/6th/3rd), 7/6 with value 4 (every 12th)",
         "L2 readRange": "<= 3 (thorough 4) ranges of width <= 3 (4), lines and columns symbolic in 1..9, first/last symbolic, offsets 0..9",
         "L3 layouts": "9 styles x key indent {0,2,3} (thorough 0..3) x continuation indent {2,3} (thorough 2..4) x trailing comment of 0/2 bytes (thorough 0/1/3) x value on key line / next line x with/without sibling fields x literal blocks with a more-indented second line; content lines of 4 and 3 bytes (thorough also 1/1 and 6/5)",
         "parser run": "alert rule with the generated expr field, optional for: and a one-entry labels map with a 2-byte symbolic value; line/column offsets (0,0) and (2,3)",
